@@ -76,10 +76,10 @@ func (r BedRec) inDomain() bool {
 func genBedRec(t *rapid.T, n int) BedRec {
 	r := BedRec{
 		N:          n,
-		Chrom:      bedFieldAlpha.Field(8, 80, 2000).Draw(t, "chrom"),
+		Chrom:      bedFieldAlpha.Field(8, 80, 9000).Draw(t, "chrom"),
 		ChromStart: gen.Ints().Draw(t, "start"),
 		ChromEnd:   gen.Ints().Draw(t, "end"),
-		Name:       bedFieldAlpha.Field(8, 80, 2000).Draw(t, "name"),
+		Name:       bedFieldAlpha.Field(8, 80, 9000).Draw(t, "name"),
 		Score:      gen.Ints().Draw(t, "score"),
 		Strand:     rapid.SampledFrom([]string{"+", "-", ".", ""}).Draw(t, "strand"),
 		ThickStart: gen.Ints().Draw(t, "thickStart"),
@@ -234,6 +234,7 @@ func checkC04(c C04Case, o *Obs) error {
 	o.Class(fmt.Sprintf("N=%d", n))
 	o.NT = len(c.Recs) >= 2
 	var file bytes.Buffer
+	var keeper marshalKeeper
 	want := make([]*bed.BED, len(c.Recs))
 	for i, r := range c.Recs {
 		b := r.toBED()
@@ -276,6 +277,11 @@ func checkC04(c C04Case, o *Obs) error {
 			return fmt.Errorf("record %d: line %q read back differently: %v", i, mt, err)
 		}
 		file.Write(mt)
+		keeper.keep(fmt.Sprintf("record %d", i), mt)
+	}
+	baseBedRec(7).toBED().MarshalText()
+	if err := keeper.verify(); err != nil {
+		return err
 	}
 	items, err := readBedItems(file.Bytes(), len(c.Recs)+3)
 	if err != nil {
@@ -318,6 +324,20 @@ func exhaustiveC04(thorough bool, emit func(C04Case) bool) {
 		r := baseBedRec(12)
 		r.N = n
 		if !emit(C04Case{Recs: []BedRec{r}}) {
+			return
+		}
+	}
+	// very long fields / lines and many blocks
+	for _, n := range []int{4096, 9000, 70000} {
+		r := baseBedRec(12)
+		r.Name = gen.B(bytes.Repeat([]byte("n\" "), n/3))
+		r.Chrom = gen.B(bytes.Repeat([]byte("c"), n))
+		k := n / 8
+		r.BlockCount, r.BlockSizes, r.BlockStarts = k, make([]int, k), make([]int, k)
+		for i := range r.BlockSizes {
+			r.BlockSizes[i], r.BlockStarts[i] = i, 1000000+i
+		}
+		if !emit(C04Case{Recs: []BedRec{r, baseBedRec(12)}}) {
 			return
 		}
 	}
